@@ -429,6 +429,14 @@ pub fn literal_stream(rng: &mut Rng, thorough: bool) -> Vec<TextCase> {
         }
         t.push(format!("{}{}", &k[..k.len() - 1], ""));
         t.push(k.to_uppercase());
+        // only the exact lower-case spelling is the keyword: other letter cases are identifiers in every position
+        let mut cs = k.chars();
+        let cap = format!("{}{}", cs.next().unwrap().to_uppercase(), cs.as_str());
+        for w in [k.to_uppercase(), cap] {
+            t.push(format!("{}(a)", w));
+            t.push(format!("a.{}", w));
+            t.push(format!("{} + i1", w));
+        }
     }
     for s in ["int", "inty", "i5", "i5x", "f1e", "f1e5", "f1e5x", "d5", "d5x", "in", "inx", "i", "f", "d", "i_", "f_1", "d1_", "i1_", "if1", "f1f", "d1d1", "i1i1", "i1 i1", "f1.5.5", "f1.5.a", "i5.a", "i5.0", "d5.a", "d5.0.a", "f5.0.0", "a_b", "_a", "a__", "A1", "é", "aé"] {
         t.push(s.to_string());
